@@ -168,9 +168,17 @@ class OpsMixin:
     def rmul(self, ex, x, y):
         return self.RMUL(x, y)
 
+    def _const_ite(self, t, depth=0):
+        """if-then-else tree whose leaves are numerals (table lookups): division by it stays exact"""
+        if z3.is_rational_value(t) or z3.is_int_value(t):
+            return True
+        if depth < 40 and z3.is_app(t) and t.decl().kind() == z3.Z3_OP_ITE:
+            return self._const_ite(t.arg(1), depth + 1) and self._const_ite(t.arg(2), depth + 1)
+        return False
+
     def rdiv(self, ex, x, y):
         ys = z3.simplify(y)
-        if z3.is_rational_value(ys) or z3.is_int_value(ys):
+        if self._const_ite(ys):
             return x / y
         return self.RDIV(x, y)
 
@@ -190,7 +198,7 @@ class OpsMixin:
                 r = r * x
             return VInt(r)
         if isinstance(b, (VInt, VBool)):
-            return VReal(self.RPOW(to_real(a), y))
+            return VReal(self.RPOW(to_real(a), b.t if isinstance(b, VInt) else z3.If(b.t, 1, 0)))
         raise Unsupported("power with non-integer exponent")
 
     REPEAT = {}
@@ -522,23 +530,22 @@ class OpsMixin:
                 yield from self.subscript(ex, p1, v, i1, node)
             return
         if isinstance(v, VDict):
-            for k, x in v.items:
-                r = list(self.equal(ex, p, idx, k, node))[0][1]
-                if ex.spec:
-                    continue
-                for p1, tv in ex.branch(p.fork(), r):
-                    if tv:
-                        yield p1, x
+            # merged lookup: one value (if-then-else over the keys) + one KeyError path
+            conds = [list(self.equal(ex, p, idx, k, node))[0][1] for k, _ in v.items]
+            if not v.items:
+                if not ex.spec:
+                    ex.raise_(p, "KeyError", node)
+                return
+            acc = v.items[-1][1]
+            for c, (k, x) in reversed(list(zip(conds[:-1], v.items[:-1]))):
+                acc = ite(c, x, acc)
             if ex.spec:
-                acc = None
-                for k, x in reversed(v.items):
-                    r = list(self.equal(ex, p, idx, k, node))[0][1]
-                    acc = x if acc is None else ite(r, x, acc)
                 yield p, acc
                 return
-            allk = z3.Or(*[list(self.equal(ex, p, idx, k, node))[0][1] for k, _ in v.items]) if v.items else z3.BoolVal(False)
-            for p1, tv in ex.branch(p, z3.Not(allk)):
-                if tv:
+            for p1, hit in ex.branch(p, z3.Or(*conds)):
+                if hit:
+                    yield p1, acc
+                else:
                     ex.raise_(p1, "KeyError", node)
             return
         if isinstance(v, VTuple) and isinstance(idx, (VInt, VBool)):
